@@ -91,6 +91,10 @@ type Spec struct {
 	Op          string
 	Components  []Component
 	Unspecified []string // non-empty: the input breaks a documented precondition; nothing is judged
+	// EmptyListOnly: the only broken precondition is an empty filter list. What such a read selects is
+	// not documented, but the backends must still agree on it (the property quantifies over "empty and
+	// duplicate filter lists"): the cross-backend comparison is judged, the documentation band is not.
+	EmptyListOnly bool
 	Ambiguous   []string // reasons why Lower != Upper may hold (documentation silent on a detail)
 	// copies returns how many entries of a caller-supplied list select t (>=1 when t is selected).
 	copies func(Tuple) int
@@ -407,6 +411,7 @@ func ReadStartingWithUser(f StartingWithUserFilter) *Spec {
 	s := &Spec{Op: "ReadStartingWithUser"}
 	if f.ObjectType == "" || f.Relation == "" || len(f.UserFilter) == 0 {
 		s.Unspecified = append(s.Unspecified, "ObjectType, Relation and UserFilter are 'Mandatory'")
+		s.EmptyListOnly = f.ObjectType != "" && f.Relation != ""
 	}
 	for _, uf := range f.UserFilter {
 		typ, id, ok := splitObject(uf.Object)
